@@ -5,7 +5,7 @@
 
 //@ splice-item quic/s2n-quic-core/src/varint/mod.rs "pub const MAX_VARINT_VALUE: u64"
 
-//@ splice-item quic/s2n-quic-core/src/varint/mod.rs "pub struct VarIntError;"
+//@ splice-item quic/s2n-quic-core/src/varint/mod.rs "pub struct VarIntError;" derive=Debug
 //@ splice-item quic/s2n-quic-core/src/varint/mod.rs "pub struct VarInt(" derive=Clone,Copy,PartialEq,Eq,PartialOrd,Ord,Structural "subst=( u64)=>(pub u64)"
 
 use vstd::std_specs::cmp::{OrdSpec, PartialOrdSpec};
@@ -33,8 +33,6 @@ pub assume_specification<T: Ord> [core::cmp::max] (a: T, b: T) -> (r: T)
 pub assume_specification<T, E> [core::result::Result::<T, E>::unwrap_or] (r: Result<T, E>, d: T) -> (o: T)
     ensures o == (match r { Ok(v) => v, Err(_) => d });
 
-impl Clone for VarIntError { fn clone(&self) -> Self { VarIntError } }
-impl Copy for VarIntError {}
 
 impl VarInt {
     pub open spec fn wf(self) -> bool { self.0 <= MAX_VARINT_VALUE }
